@@ -32,6 +32,13 @@ func VerifConnCounts(c *Conn) (tags, fids int) {
 // VerifReqConnMsize returns the msize and dialect of the request's connection.
 func VerifReqConnMsize(r *SrvReq) (uint32, bool) { return r.Conn.Msize, r.Conn.Dotu }
 
+func verifB(b bool) uint32 {
+	if b {
+		return 1
+	}
+	return 0
+}
+
 var verifMu sync.RWMutex
 var verifHook func(point string, obj interface{}, a, b uint32)
 
